@@ -32,6 +32,9 @@ def run(ck, an, tier):
     from rules import C14 as _c14
     from sa.report import Renamed as _R
     _c14.s3(_R(ck, "C14:"), an)      # a discontinued book stays dead and blank (what "discontinued" means for valuation and rolling)
+    from rules import C04 as _c04, C18 as _c18, ledger as _ledger
+    _c04.env_side(_ledger._Only(_R(ck, "C04:"), {"clock-set", "clock-is-event-time", "both-clocks-set", "each-clock-before-dispatch"}), an)      # "the current simulation time" the chain resolves against is the time of the event being processed
+    _c18.s1(_ledger._Only(_R(ck, "C18:"), {"every-price-row", "every-price-column", "quote-recorded"}), an)      # the prevailing quotes of both leads: every given price of a dated contract becomes a quote
 
 
 def s1(ck, an):
